@@ -1672,6 +1672,9 @@ class CrossSectionGroupManager(interfaces.Interface):
             )
         )
         for xsID, collection in blockCollectionsByXsGroup.items():
+            if not collection.getCandidateBlocks():
+                # nothing can represent this group (see createRepresentativeBlocks)
+                continue
             collection.calcAvgNuclideTemperatures()
             self.avgNucTemperatures[xsID] = collection.avgNucTemperatures
             runLog.extra("XS ID: {}, Collection: {}".format(xsID, collection))
